@@ -135,6 +135,8 @@ type LanguageServer struct {
 
 	regoStore storage.Store
 	conn      *jsonrpc2.Conn
+	// serializes reading a file's diagnostics from the cache and publishing them
+	publishLock sync.Mutex
 
 	configWatcher *lsconfig.Watcher
 	loadedConfig  *config.Config
@@ -2589,6 +2591,11 @@ func (l *LanguageServer) handleWorkspaceDidChangeWatchedFiles(
 }
 
 func (l *LanguageServer) sendFileDiagnostics(ctx context.Context, fileURI string) error {
+	// the workers and the handlers all publish: without the lock, diagnostics read by a worker before a
+	// file was deleted could be sent after the handler's notification that clears them
+	l.publishLock.Lock()
+	defer l.publishLock.Unlock()
+
 	// first, set the diagnostics for the file to the current parse errors
 	fileDiags, _ := l.cache.GetParseErrors(fileURI)
 
